@@ -84,38 +84,39 @@ def plan(tier, seed):
 def required(tier):
     k = 1 if tier == "quick" else 8
     req = {
-        "datasets": 150, "fn_calls": 4000, "fn_names_checked": 20000, "fn_cells_checked": 60000, "fn_calls_matrix_mode": 1000,
-        "fn_alleles_checked": 60000, "fn_dist_cells_checked": 60000, "fn_select_all": 800, "fn_select_one": 800, "fn_select_subset": 300,
-        "prog_configs": 250, "prog_sample_loci": 3000, "prog_rows_checked": 15000, "prog_dedup_with_count_gt1": 150,
-        "prog_rcount_checked": 3000, "prog_rcount_includes_all_gap_rows": 1000, "prog_rcalls_checked": 3000, "prog_snvdp_exact": 800, "prog_snvdp_bracketed": 300,
-        "prog_dp_checked": 2500, "prog_pool_configs": 50, "prog_pool_sample_in_two_pools": 15, "prog_pool_single_name": 10,
-        "prog_pool_multi_member_loci": 150,
-        "cli_runs": 120, "cli_records": 400, "cli_sample_fields_checked": 1500, "cli_snvdp_exact": 400, "cli_snvdp_bracketed": 100,
-        "inject_vcf_ref_locus_raised": 30, "inject_vcf_ref_cli_raised": 15, "inject_md_ref_fn_raised": 30, "inject_md_ref_cli_raised": 15,
-        "cigar_I": 300, "cigar_D": 300, "cigar_S": 300, "cigar_N": 100, "cigar_EQ": 100, "cigar_X": 100, "cigar_H": 100,
-        "cells_deleted": 50, "cells_skipped": 30, "cells_clipped": 50,
-        "flag_unmapped_excluded": 200, "flag_secondary_kept": 200, "flag_qcfail_excluded": 200, "flag_qcfail_kept": 200,
-        "flag_duplicate_excluded": 200, "flag_duplicate_kept": 200, "flag_supplementary_excluded": 200, "flag_supplementary_kept": 200,
-        "flag_combination_seen": 200,
-        "abut_left_excluded": 300, "abut_right_excluded": 300, "overlap_one_base_contributes": 300, "rows_all_gap": 300,
-        "softclip_reaches_into_locus_excluded": 100,
-        "cells_mates_agree": 1000, "cells_mates_disagree": 100, "names_one_mate_filtered": 100, "cells_non_listed_base": 300,
-        "field_SM": 1500, "field_ID": 1500, "loci_zero_snvs": 100, "sample_loci_no_reads": 300,
-        "samples_per_bam_1": 20, "samples_per_bam_2": 20, "samples_per_bam_3": 20,
-        "rgs_per_sample_1": 30, "rgs_per_sample_2": 30, "rgs_per_sample_3": 30,
+        "datasets": 450, "fn_calls": 5600, "fn_calls_matrix_mode": 5600, "fn_names_checked": 55000, "fn_cells_checked": 150000,
+        "fn_alleles_checked": 150000, "fn_dist_cells_checked": 150000, "fn_select_all": 2200, "fn_select_one": 2500, "fn_select_subset": 730,
+        "prog_configs": 320, "prog_sample_loci": 4400, "prog_rows_checked": 29000, "prog_dedup_with_count_gt1": 4400,
+        "prog_rcount_checked": 4400, "prog_rcount_includes_all_gap_rows": 2500, "prog_rcalls_checked": 4400, "prog_snvdp_exact": 2500,
+        "prog_snvdp_bracketed": 1100, "prog_dp_checked": 3700, "prog_pool_configs": 140, "prog_pool_sample_in_two_pools": 70,
+        "prog_pool_single_name": 28, "prog_pool_multi_member_loci": 930,
+        "cli_runs": 160, "cli_records": 630, "cli_sample_fields_checked": 2200, "cli_snvdp_exact": 1100, "cli_snvdp_bracketed": 620,
+        "inject_vcf_ref_locus_raised": 100, "inject_vcf_ref_cli_raised": 26, "inject_md_ref_fn_raised": 490, "inject_md_ref_cli_raised": 26,
+        "cigar_I": 6100, "cigar_D": 11000, "cigar_S": 11000, "cigar_N": 5900, "cigar_EQ": 6000, "cigar_X": 3500, "cigar_H": 5700,
+        "cells_deleted": 860, "cells_skipped": 1100, "cells_clipped": 1100,
+        "flag_unmapped_excluded": 7100, "flag_secondary_kept": 7800, "flag_qcfail_excluded": 13000, "flag_qcfail_kept": 6300,
+        "flag_duplicate_excluded": 13000, "flag_duplicate_kept": 6400, "flag_supplementary_excluded": 7600, "flag_supplementary_kept": 3800,
+        "flag_combination_seen": 14000,
+        "abut_left_excluded": 10000, "abut_right_excluded": 12000, "overlap_one_base_contributes": 13000, "rows_all_gap": 17000,
+        "softclip_reaches_into_locus_excluded": 10000,
+        "cells_mates_agree": 8800, "cells_mates_disagree": 2200, "names_one_mate_filtered": 3200, "cells_non_listed_base": 2100,
+        "field_SM": 2900, "field_ID": 2900, "loci_zero_snvs": 1000, "sample_loci_no_reads": 2300,
+        "samples_per_bam_1": 53, "samples_per_bam_2": 53, "samples_per_bam_3": 53,
+        "rgs_per_sample_1": 150, "rgs_per_sample_2": 150, "rgs_per_sample_3": 150,
+        "datasets_rg_id_equals_other_sample_name": 50, "same_name_in_two_read_groups_or_files": 820,
     }
     for c in range(8):
-        req["keep_combo_%d" % c] = 250
+        req["keep_combo_%d" % c] = 700
     for t in THRESHOLDS:
-        req["minq_%d_eq" % t] = 60
-        req["minq_%d_plus1" % t] = 60
-        req["minq_%d_255" % t] = 60
+        req["minq_%d_eq" % t] = 1500
+        req["minq_%d_plus1" % t] = 1500
+        req["minq_%d_255" % t] = 1500
         if t > 0:
-            req["minq_%d_minus1" % t] = 60
-            req["minq_%d_zero" % t] = 60
+            req["minq_%d_minus1" % t] = 1500
+            req["minq_%d_zero" % t] = 1500
     if tier == "thorough":
         req = {n: v * k for n, v in req.items()}
-        req.update({"phred_fn_cells_checked": 50000, "phred_fn_merged_cells": 1000, "phred_prog_rows_checked": 5000})
+        req.update({"phred_fn_cells_checked": 500000, "phred_fn_merged_cells": 80000, "phred_prog_rows_checked": 80000})
     return req
 
 
@@ -406,6 +407,7 @@ def case_params(seed, shard, index):
         "snv_hi": int(rng.choice([3, 6, 8])),
         "clean": bool(rng.random() < 0.2),
         "empty_sample": bool(spb <= 2 and rng.random() < 0.6),
+        "cross_ids": bool(spb >= 2 and rng.random() < 0.5),
     }
     return rng, p
 
@@ -435,6 +437,21 @@ def build_dataset(rng, p, root):
                     qi, v = hits[int(rng.integers(len(hits)))]
                     free = [b for b in "ACGTN" if b not in [v["ref"]] + list(v["alts"])]
                     a["seq"] = a["seq"][:qi] + free[int(rng.integers(len(free)))] + a["seq"][qi + 1 :]
+        if p.get("cross_ids"):
+            # read-group ID of one sample equals the NAME of another sample of the same BAM (SM / ID confusion must show)
+            sms = []
+            for rg in rgs:
+                if rg["SM"] not in sms:
+                    sms.append(rg["SM"])
+            sa, sb = sms[0], sms[1]
+            ren = {"%s_rg0" % sa: sb, "%s_rg0" % sb: sa}
+            for rg in rgs:
+                rg["ID"] = ren.get(rg["ID"], rg["ID"])
+            for a in alns:
+                a["rg"] = ren.get(a["rg"], a["rg"])
+            for sname in (sa, sb):
+                ds.sample_rgs[sname] = [ren.get(i, i) for i in ds.sample_rgs[sname]]
+            info["cross"] = True
         # hand-made alignments around the locus boundaries
         k = 0
         for loc in ds.loci:
@@ -465,9 +482,19 @@ def build_dataset(rng, p, root):
                     seq = seq + D.random_sequence(rng, s)
                 elif kind == "clip_right":
                     seq = D.random_sequence(rng, s) + seq
-                q = "bnd_b%d_%s_%s_%d" % (bi, loc["name"], kind, k)
+                # the same names are used in every BAM: pool members from different files must not be merged by name
+                q = "bnd_%s_%s" % (loc["name"], kind)
                 k += 1
                 alns.append(D.make_alignment(q, c, pos0, cigar, seq, rg, flag=0, mapq=60, qual=random_quals(rng, len(seq))))
+                if kind == "one_left":
+                    # a second alignment with the SAME name inside the locus, in any read group of this BAM: merged into the
+                    # same row when it belongs to the same sample under the chosen field, a separate row otherwise
+                    rg2 = rgs[int(rng.integers(len(rgs)))]["ID"]
+                    ln2 = int(rng.integers(10, 30))
+                    p2 = int(rng.integers(loc["start"], max(loc["start"] + 1, loc["stop"] - 5)))
+                    if p2 + ln2 <= len(ref):
+                        alns.append(D.make_alignment(q, c, p2, [("M", ln2)], ref[p2 : p2 + ln2], rg2, flag=0, mapq=60, qual=random_quals(rng, ln2)))
+                        info["twins"] = info.get("twins", 0) + 1
         if p["empty_sample"]:
             rgs.append({"ID": "EMPTY%d_rg0" % bi, "SM": "EMPTY%d" % bi})
         D.write_bam(bam, ds.contigs, rgs, alns)
@@ -1132,6 +1159,8 @@ def run_dataset_case(tier, seed, shard, index, col, workname):
         pre = Pre(ds)
         col.count("datasets")
         col.count("samples_per_bam_%d" % p["samples_per_bam"])
+        col.count("datasets_rg_id_equals_other_sample_name", 1 if info.get("cross") else 0)
+        col.count("same_name_in_two_read_groups_or_files", info.get("twins", 0))
         for s, ids in ds.sample_rgs.items():
             col.count("rgs_per_sample_%d" % len(ids))
         thorough = tier == "thorough"
